@@ -97,6 +97,12 @@ func goColumn(ty string, vs []int64) interface{} {
 			c[i] = uint64(v)
 		}
 		return c
+	case "bool":
+		c := make([]bool, n)
+		for i, v := range vs {
+			c[i] = v != 0
+		}
+		return c
 	}
 	panic("bad-arg colty " + ty)
 }
@@ -122,6 +128,8 @@ func aggErrClass(err error) string {
 		return "err:nocolumn"
 	case strings.Contains(s, "cast Epoch column"):
 		return "err:cast"
+	case strings.Contains(s, "unsupported type"):
+		return "err:unsupported"
 	}
 	return "err:other"
 }
@@ -373,7 +381,7 @@ func sizeTag(n int) string {
 
 func genC23(g *Gen) {
 	handled := []string{"f32", "f64", "int", "i64", "i32"}
-	unhandled := []string{"i16", "i8", "u8", "u16", "u32", "u64"}
+	narrow := []string{"i16", "i8", "u8", "u16", "u32", "u64"} // converted since the type switch was completed
 	fns := []string{"count", "min", "max", "avg"}
 	n := g.N(2500, 40000)
 	for i := 0; i < n; i++ {
@@ -384,18 +392,23 @@ func genC23(g *Gen) {
 		}
 		var ty string
 		switch r := g.Intn(20); {
-		case r < 14:
+		case r < 11:
 			ty = handled[g.Intn(len(handled))]
 		case r < 18:
-			ty = unhandled[g.Intn(len(unhandled))]
-		default:
+			ty = narrow[g.Intn(len(narrow))]
+		case r < 19:
 			ty = "none"
+		default:
+			ty = "bool" // a non-numeric column: rejected with an error
 		}
 		sizes := genBatchSizes(g, mode == "run")
 		total, anyNaN := 0, false
 		vty := ty
 		if ty == "none" {
 			vty = "i64"
+		}
+		if ty == "bool" {
+			vty = "u8"
 		}
 		bs := make([][]int64, len(sizes))
 		dup := g.Intn(4) == 0 // many equal values (ties, first-wins)
@@ -451,7 +464,7 @@ func genC23(g *Gen) {
 		case 1:
 			ty = "int"
 		case 2:
-			ty = []string{"u32", "i16", "u64"}[g.Intn(3)]
+			ty = []string{"u32", "i16", "u64", "bool"}[g.Intn(4)]
 		case 3:
 			ty = "none"
 		case 4:
